@@ -941,3 +941,37 @@ def run_fmt_numeric(P, rep, rule="R-FMT.numeric"):
                 rep.ok(rule, site, where, "zero fill on the left (%s)" % ("`0` flag" if pc.get("zero_pad") else "fill '0', align Right"))
     rep.analysed[rule + ".zero_filled_placeholders"] = n
     rep.analysed[rule + ".format_sites"] = len(sites)
+
+
+# ---------------------------------------------------------------------------------------
+# R-SIGN: a negative numeric field prints its minus sign on every padding path
+
+def run_sign(P, rep, rule="R-SIGN"):
+    """strftime prints numeric fields as `value.abs()`; on every path from the binding of `value` to that print either
+    `value < 0` is known to be false or '-' has been pushed — whatever the padding flag (the `-`, `_`, `0` paths are all
+    explored; tests such as `style != Space` / `style == Space` are correlated so infeasible mixes are not reported)."""
+    import predpath
+    fn = P.fn_by_key("liquid_core::model::scalar::datetime::strftime::strftime")
+
+    def use_pred(t):
+        f = t["f"]
+        if f["id"].rsplit("::", 1)[1] in ("abs", "unsigned_abs", "wrapping_abs") and "i64" in f["name"] and t["args"]:
+            return t["args"][0]
+        return None
+
+    def action_pred(t):
+        f = t["f"]
+        return f["name"].endswith("String::push") and len(t["args"]) > 1 and t["args"][1][0] == "k" and isinstance(t["args"][1][1], dict) \
+            and t["args"][1][1].get("val") == 45
+    bad, uses = predpath.sign_discipline(P, fn, use_pred, action_pred)
+    if not uses:
+        rep.viol(rule, "strftime numeric print", P.where(fn), "no `value.abs()` print found: the numeric emission changed shape (not decided)")
+        return
+    for k, (ub, V) in enumerate(sorted(uses.items())):
+        site = "strftime abs#%d" % k
+        mine = [m for b_, m in bad if b_ == ub]
+        where = P.where(fn, fn.blocks[ub]["t"].get("line"))
+        if mine:
+            rep.viol(rule, site, where, "a negative numeric value can be printed without its '-': " + mine[0])
+        else:
+            rep.ok(rule, site, where, "on every path to the print, value >= 0 is known or '-' was pushed (padding-flag tests correlated)")
